@@ -105,3 +105,52 @@ class MemApp:
 		eps = self.app.resolve(Entrypoints)
 		eps.unload('__main__')
 		return eps.load('__main__')
+
+
+class TreeApp(MemApp):
+	"""MemApp whose per-module node container can be fed with an arbitrary root Entry.
+
+	parse(src)          -> EntryOfLark of the in-memory module (through the repo's SyntaxParser)
+	nodes_for(entry)    -> Entrypoint node of a *fresh* per-module container (Nodes + NodeResolver) built on `entry`
+	"""
+
+	def __init__(self, scratch: str, **kw) -> None:
+		from rogw.tranp.app.config import module_dependency_provider
+		from rogw.tranp.lang.module import to_fullyname
+		from rogw.tranp.module.loader import ModuleDependencyProvider
+
+		self._entry_override = None
+		base = module_dependency_provider()()
+
+		def provider():
+			def deps():
+				d = dict(base)
+				if self._entry_override is not None:
+					entry = self._entry_override
+					d['rogw.tranp.syntax.ast.entry.Entry'] = lambda: entry
+				return d
+			return deps
+
+		definitions = dict(kw.pop('definitions', None) or {})
+		definitions[to_fullyname(ModuleDependencyProvider)] = provider
+		super().__init__(scratch, definitions=definitions, **kw)
+
+	def parse(self, source: str):
+		from rogw.tranp.syntax.ast.parser import SyntaxParser
+		self.source_provider.source_code = source
+		return self.app.resolve(SyntaxParser)('__main__')
+
+	def nodes_for(self, entry):
+		from rogw.tranp.syntax.ast.entrypoints import Entrypoints
+		eps = self.app.resolve(Entrypoints)
+		eps.unload('__main__')
+		self._entry_override = entry
+		try:
+			return eps.load('__main__')
+		finally:
+			self._entry_override = None
+
+
+def nodes_of(node):
+	"""The Query (Nodes) object behind a node."""
+	return node._Node__nodes
